@@ -458,6 +458,34 @@ pub fn act(w: &mut World, op: &Op) -> bool {
             w.inject(0, attacker_addr(*z), bytes, None, Some("forged-message".into()));
             true
         }
+        Op::GuessedKeyMessage { peer, to, key, body } => {
+            let j = 1 + (*peer as usize % (n - 1).max(1));
+            let mut t = *to as usize % n;
+            if n < 2 || j >= n {
+                return false;
+            }
+            if t == j {
+                t = 0;
+            }
+            let k: [u8; 16] = match key % 3 {
+                0 => [0u8; 16],
+                1 => [0xffu8; 16],
+                _ => core::array::from_fn(|i| i as u8 + 1),
+            };
+            let mut vp = VPacket {
+                iv: u128::from_be_bytes(arr::<16>(prng(w.step, 71, 16))),
+                message_nonce: arr::<12>(prng(w.step, 72, 12)),
+                protocol_identity: ProtocolIdentity::default(),
+                kind: PacketKind::Message { src_id: ids::node_id(&w.nodes[j].id) },
+                message: vec![],
+            };
+            let aad = packet_authenticated_data(&vp);
+            vp.message = hv::encrypt_message(&k, vp.message_nonce, &forged_plain(*body, w.step), &aad).unwrap_or_default();
+            let bytes = packet_encode(vp, &ids::node_id(&w.nodes[t].id));
+            let from = w.nodes[j].addr;
+            w.inject(t, from, bytes, None, Some("guessed-key-message".into()));
+            true
+        }
         Op::ForgedWhoAreYou { d, from, to, random_nonce } => match sel(&w.log, *d) {
             Some(i) => {
                 let dg = w.log[i].clone();
